@@ -26,7 +26,8 @@ RULE = ('One case = one generated chart + one input history; the base build (API
         'copy_from_statechart host). Every projected field of every macro step (time, event, per micro step transition/'
         'exited/entered/sent), the executed code sequence, configuration, context and error kind are compared. '
         'Non-trivial = distinct cases whose base run contains a step with >= 2 transitions or an exit list with >= 2 '
-        'states of equal depth AND whose permuted builds really changed a sibling order.')
+        'states of equal depth AND whose permuted builds really changed a sibling order.  Some guards cannot be evaluated (same kind of error '
+        'whatever the order); the repetition hands the same initial_context dictionary to a second interpreter; names differing by case only.')
 ASSUMPTIONS = ['order of guard *evaluation* is not part of a macro step and is not compared',
                'generator domain of DESIGN §2; hash seeds sampled, not enumerated']
 REQUIRED_COUNTERS = ['repetitions_with_the_same_initial_context_object', 'cases_with_guards_that_raise', 'edited_variants', 'variant_runs_compared', 'yaml_variants', 'api_variants', 'hashseed_children', 'hashseed_digests_compared',
